@@ -436,6 +436,11 @@ func cmdClientReplay(a Args) {
 		if err := json.Unmarshal(line, &steps); err != nil {
 			return err
 		}
+		// the verdict is clear after many unclassified divergences (each may cost several time-outs): skip the rest
+		if res.Counts["known:"] >= 40 {
+			res.Counts["skipped_after_violation"]++
+			return nil
+		}
 		res.Evaluations++
 		d, tag := runClientBehaviour(steps, res, dev)
 		if tag == "INFRA" {
